@@ -53,6 +53,9 @@ def scenario_keys(ctx):
         add("record_artifacts", arts=arts, bp=bp)
     for arts, bp in (("plain", "none"), ("dir_scheme", "arg"), ("collide", "setting"), ("dot", "none")):
         add("record_artifacts", arts=arts, bp=bp, excl_setting=True)
+    # the same duties when the call is cut short by an interruption that is not an Exception
+    for arts, bp in (("plain", "arg"), ("dir_scheme", "arg"), ("ostree", "setting"), ("mixed", "arg")):
+        add("record_artifacts", arts=arts, bp=bp, abort=True)
     if th:
         for arts in L.RA_ARTIFACTS:
             for bp in forms:
@@ -147,6 +150,8 @@ def scenario_keys(ctx):
         add("verify", bp=bp, insp=["ok"])
         add("verify", bp=bp, insp=["fail"])
         add("verify", bp=bp, insp=["sleep"], timeout=tmo)
+    add("verify", bp="setting_empty", insp=["ok"])
+    add("verify", bp="setting_empty", insp=["ok", "fail"])
     add("verify", bp="setting", insp=[])                       # a layout without inspections: nothing runs, nothing may change
     add("verify", bp="setting", insp=[], dsse=True)
     add("verify", bp="setting", insp=["touch", "ok"])
@@ -240,7 +245,7 @@ class Runner:
             for nme, val in case.settings.items():
                 setattr(S, nme, val)
             before = L.snapshot(self.tmpdir)
-            inj = L.Injector(fail_at=k or None)
+            inj = L.Injector(fail_at=k or None, abort=bool(scen.params.get("abort")))
             exc = None
             sink = io.StringIO()
             with inj.patched(), contextlib.redirect_stdout(sink), contextlib.redirect_stderr(sink):
